@@ -37,6 +37,8 @@
        "caller"  as the pinned code reads: get_running_loop() in the CALLER's thread decides, a
                  thread without a running loop is told to cancel directly (a foreign thread that
                  runs ANOTHER event loop - scenario variable `own` - is told to marshal)
+       "impatient"  the marshalled dispose() waits for the loop with a timeout and swallows it (negative
+                 control of NoStartAfterDisposeReturned in the scenarios with a BUSY loop)
        "early" / "lose" / "nowake" / "inline"   single faults used as negative controls of NotEarly,
                  NoLostAction (stage 2 forgets the timer; the thread-safe schedule appends to the
                  ready queue without waking the selector), OnLoopThread (each must be refuted by
@@ -80,15 +82,16 @@ VARIABLES loopTh,   \* monitor: thread running the loop now, or NoTh
           lp,       \* mechanism: loop thread control [pc, h, todo]
           q,        \* mechanism: thread -> remaining ops (F: its script; L: ops of the running callback)
           ex,       \* mechanism: thread -> the scheduler call in progress [op, i, step, tmp]
-          fwake,    \* mechanism: foreign thread -> it sleeps until the clock reaches this
+          fwake,    \* mechanism: thread -> it sleeps until the clock reaches this (the loop thread: inside a callback)
           go,       \* mechanism: F asked the loop to start
           idled,    \* mechanism: 0 = nothing reported since the last iteration, 1 = idle reported, 2 = asleep-with-work reported
           woken,    \* mechanism: the self-pipe has data (_write_to_self was called since select() last returned)
-          own       \* scenario: the foreign threads that have a running event loop of their own (another loop)
+          own,      \* scenario: the foreign threads that have a running event loop of their own (another loop)
+          busy      \* scenario: the loop's first callback (the driver) begins by sleeping that long on the clock (0 = not)
 
 mon  == <<loopTh, gen, now, it, lost>>
-mech == <<variant, scn, hs, ready, timers, hl, fut, lp, q, ex, fwake, go, idled, woken, own>>
-vars == <<loopTh, gen, now, it, lost, variant, scn, hs, ready, timers, hl, fut, lp, q, ex, fwake, go, idled, woken, own>>
+mech == <<variant, scn, hs, ready, timers, hl, fut, lp, q, ex, fwake, go, idled, woken, own, busy>>
+vars == <<loopTh, gen, now, it, lost, variant, scn, hs, ready, timers, hl, fut, lp, q, ex, fwake, go, idled, woken, own, busy>>
 
 (* ======================================= MONITOR ======================================== *)
 NewItem == [ss |-> "new", k |-> "-", due |-> 0, ds |-> "none", dm |-> "-", dg |-> 0, cov |-> FALSE,
@@ -204,24 +207,25 @@ DrvOps(s, i) == IF s[i].sw # LT THEN <<>>
 Script(s, th) == IF th = FT
                  THEN CatUpTo([i \in Items |-> PreOps(s, i)], N) \o <<Op("go", 0, 0), Op("up", 0, 0)>> \o CatUpTo([i \in Items |-> RunOps(s, i, th)], N)
                  ELSE CatUpTo([i \in Items |-> RunOps(s, i, th)], N)
-LScript(s) == CatUpTo([i \in Items |-> DrvOps(s, i)], N)
+\* the driver callback: optionally a long sleep first (the loop thread is BUSY: handles queue up behind it)
+LScript(s, b) == (IF b > 0 THEN <<Op("sleep", 0, b)>> ELSE <<>>) \o CatUpTo([i \in Items |-> DrvOps(s, i)], N)
 
 (* ====================================== MECHANISM ======================================= *)
 NoOp == [op |-> "none", i |-> 0, step |-> 0, tmp |-> 0]
 H(k, i, when) == [k |-> k, i |-> i, when |-> when, c |-> FALSE]
 TsRel(i) == scn[i].k = "ts" /\ scn[i].d > 0
 
-MechInitFor(v, s, o) ==
-            /\ variant = v /\ scn = s /\ own = o
-            /\ hs = IF LScript(s) = <<>> THEN <<>> ELSE <<H("drv", 0, 0)>>      \* loop.call_soon(driver) before the start
-            /\ ready = IF LScript(s) = <<>> THEN <<>> ELSE <<1>>
+MechInitFor(v, s, o, b) ==
+            /\ variant = v /\ scn = s /\ own = o /\ busy = b
+            /\ hs = IF LScript(s, b) = <<>> THEN <<>> ELSE <<H("drv", 0, 0)>>      \* loop.call_soon(driver) before the start
+            /\ ready = IF LScript(s, b) = <<>> THEN <<>> ELSE <<1>>
             /\ timers = {}
             /\ hl = [i \in Items |-> <<>>]
             /\ fut = [i \in Items |-> "none"]
             /\ lp = [pc |-> "off", h |-> 0, todo |-> 0]
             /\ q = [t \in Threads |-> IF t = LT THEN <<>> ELSE Script(s, t)]
             /\ ex = [t \in Threads |-> NoOp]
-            /\ fwake = [t \in Foreign |-> 0] /\ go = FALSE /\ idled = 0 /\ woken = FALSE
+            /\ fwake = [t \in Threads |-> 0] /\ go = FALSE /\ idled = 0 /\ woken = FALSE
 
 
 Busy(th) == ex[th].op # "none"
@@ -237,7 +241,7 @@ MayRun(th) == IF th = LT THEN lp.pc = "cb" ELSE (th = FT \/ loopTh # NoTh \/ lp.
 
 (* ---- fetching the next op of a script ------------------------------------------------------- *)
 NextOp(th) ==
-    /\ MayRun(th) /\ ~Busy(th) /\ q[th] # <<>> /\ (th # LT => now >= fwake[th])
+    /\ MayRun(th) /\ ~Busy(th) /\ q[th] # <<>> /\ now >= fwake[th]
     /\ LET o == Head(q[th]) IN
        /\ q' = [q EXCEPT ![th] = Tail(@)]
        /\ CASE o.op = "go"    -> go' = TRUE /\ UNCHANGED <<ex, fwake>>
@@ -245,7 +249,7 @@ NextOp(th) ==
             [] o.op = "await" -> it[o.i].ss = "ret" /\ UNCHANGED <<ex, fwake, go>>       \* blocks until the item was scheduled
             [] o.op = "up"    -> loopTh # NoTh /\ UNCHANGED <<ex, fwake, go>>            \* blocks until the loop runs
             [] OTHER          -> SetEx(th, [op |-> o.op, i |-> o.i, step |-> 0, tmp |-> o.w]) /\ UNCHANGED <<fwake, go>>
-    /\ UNCHANGED <<mon, variant, scn, hs, ready, timers, hl, fut, lp, idled, woken, own>>
+    /\ UNCHANGED <<mon, variant, scn, hs, ready, timers, hl, fut, lp, idled, woken, own, busy>>
 
 (* ---- schedule / schedule_relative ------------------------------------------------------------- *)
 SchedCall(th) ==
@@ -253,13 +257,13 @@ SchedCall(th) ==
     /\ LET i == ex[th].i IN
        /\ MSchedCall(i, th, scn[i].k, scn[i].d, now)
        /\ StepTo(th, IF variant = "inline" /\ scn[i].d = 0 /\ th # LT THEN 5 ELSE 1)
-    /\ UNCHANGED <<variant, scn, hs, ready, timers, hl, fut, lp, q, fwake, go, idled, woken, own>>
+    /\ UNCHANGED <<variant, scn, hs, ready, timers, hl, fut, lp, q, fwake, go, idled, woken, own, busy>>
 
 \* fault "inline": an immediate schedule from a foreign thread runs the action on the caller
 SchedInline(th) ==
     /\ MayRun(th) /\ ex[th].op = "sched" /\ ex[th].step = 5
     /\ MStart(ex[th].i, th, now) /\ StepTo(th, 3)
-    /\ UNCHANGED <<variant, scn, hs, ready, timers, hl, fut, lp, q, fwake, go, idled, woken, own>>
+    /\ UNCHANGED <<variant, scn, hs, ready, timers, hl, fut, lp, q, fwake, go, idled, woken, own, busy>>
 
 \* call_soon / call_soon_threadsafe / call_later: the handle exists and is queued.
 \* call_soon_threadsafe = append to the ready queue, THEN wake the selector (_write_to_self) - two steps: the loop
@@ -276,7 +280,7 @@ SchedEnqueue(th) ==
          [] OTHER ->                \* AsyncIOScheduler.schedule_relative: call_later on the caller's thread
               /\ hs' = Append(hs, H("iv", i, now + d)) /\ timers' = timers \cup {NextH}
               /\ hl' = [hl EXCEPT ![i] = <<NextH>>] /\ StepTo(th, 3) /\ UNCHANGED ready
-    /\ UNCHANGED <<mon, variant, scn, fut, lp, q, fwake, go, idled, woken, own>>
+    /\ UNCHANGED <<mon, variant, scn, fut, lp, q, fwake, go, idled, woken, own, busy>>
 
 \* the second half of call_soon_threadsafe: _write_to_self()
 Wake(th) ==
@@ -286,20 +290,20 @@ Wake(th) ==
        \/ ex[th].op = "post" /\ ex[th].step = 1
     /\ woken' = (woken \/ ~(variant = "nowake" /\ ex[th].op = "sched"))
     /\ CASE ex[th].op = "sched" -> StepTo(th, IF ex[th].step = 6 THEN 2 ELSE 3)
-         [] ex[th].op = "disp"  -> StepTo(th, 11)
+         [] ex[th].op = "disp"  -> ex' = [ex EXCEPT ![th].step = 11, ![th].tmp = now + 1]
          [] OTHER               -> SetEx(th, NoOp)
-    /\ UNCHANGED <<mon, variant, scn, hs, ready, timers, hl, fut, lp, q, fwake, go, idled, own>>
+    /\ UNCHANGED <<mon, variant, scn, hs, ready, timers, hl, fut, lp, q, fwake, go, idled, own, busy>>
 
 \* stage 1, second half: handle.append(...)
 SchedAssign(th) ==
     /\ MayRun(th) /\ ex[th].op = "sched" /\ ex[th].step = 2
     /\ hl' = [hl EXCEPT ![ex[th].i] = Append(@, ex[th].tmp)] /\ StepTo(th, 3)
-    /\ UNCHANGED <<mon, variant, scn, hs, ready, timers, fut, lp, q, fwake, go, idled, woken, own>>
+    /\ UNCHANGED <<mon, variant, scn, hs, ready, timers, fut, lp, q, fwake, go, idled, woken, own, busy>>
 
 SchedRet(th) ==
     /\ MayRun(th) /\ ex[th].op = "sched" /\ ex[th].step = 3
     /\ MSchedRet(ex[th].i, now) /\ SetEx(th, NoOp)
-    /\ UNCHANGED <<variant, scn, hs, ready, timers, hl, fut, lp, q, fwake, go, idled, woken, own>>
+    /\ UNCHANGED <<variant, scn, hs, ready, timers, hl, fut, lp, q, fwake, go, idled, woken, own, busy>>
 
 (* ---- dispose -------------------------------------------------------------------------------- *)
 Direct(i, th) == \/ scn[i].k = "aio"                         \* AsyncIOScheduler: handle.cancel() wherever it is called
@@ -312,7 +316,7 @@ DispCall(th) ==
     /\ MayRun(th) /\ ex[th].op = "disp" /\ ex[th].step = 0
     /\ MDispCall(ex[th].i, th, now)
     /\ StepTo(th, IF Direct(ex[th].i, th) THEN 1 ELSE 10)
-    /\ UNCHANGED <<variant, scn, hs, ready, timers, hl, fut, lp, q, fwake, go, idled, woken, own>>
+    /\ UNCHANGED <<variant, scn, hs, ready, timers, hl, fut, lp, q, fwake, go, idled, woken, own, busy>>
 
 \* handle.pop() (IndexError is swallowed: the rest of do_cancel_handles is skipped)
 CancelPop(th) ==
@@ -321,38 +325,46 @@ CancelPop(th) ==
        IF hl[i] = <<>> THEN StepTo(th, 9) /\ UNCHANGED hl
        ELSE /\ hl' = [hl EXCEPT ![i] = Front(@)]
             /\ ex' = [ex EXCEPT ![th].step = @ + 1, ![th].tmp = Last(hl[i])]
-    /\ UNCHANGED <<mon, variant, scn, hs, ready, timers, fut, lp, q, fwake, go, idled, woken, own>>
+    /\ UNCHANGED <<mon, variant, scn, hs, ready, timers, fut, lp, q, fwake, go, idled, woken, own, busy>>
 
 \* .cancel()
 CancelSet(th) ==
     /\ MayRun(th) /\ ex[th].op \in {"disp", "cxl"} /\ ex[th].step \in {2, 4}
     /\ hs' = [hs EXCEPT ![ex[th].tmp].c = TRUE]
     /\ StepTo(th, IF ex[th].step = 2 /\ TsRel(ex[th].i) /\ variant # "lose" THEN 3 ELSE 9)
-    /\ UNCHANGED <<mon, variant, scn, ready, timers, hl, fut, lp, q, fwake, go, idled, woken, own>>
+    /\ UNCHANGED <<mon, variant, scn, ready, timers, hl, fut, lp, q, fwake, go, idled, woken, own, busy>>
 
 \* self._loop.call_soon_threadsafe(cancel_handle)
 DispMarshal(th) ==
     /\ MayRun(th) /\ ex[th].op = "disp" /\ ex[th].step = 10
     /\ hs' = Append(hs, H("cx", ex[th].i, 0)) /\ ready' = Append(ready, NextH)
     /\ fut' = [fut EXCEPT ![ex[th].i] = "wait"] /\ StepTo(th, 12)
-    /\ UNCHANGED <<mon, variant, scn, timers, hl, lp, q, fwake, go, idled, woken, own>>
+    /\ UNCHANGED <<mon, variant, scn, timers, hl, lp, q, fwake, go, idled, woken, own, busy>>
 
 \* future.result()
 DispAwait(th) ==
     /\ MayRun(th) /\ ex[th].op = "disp" /\ ex[th].step = 11 /\ fut[ex[th].i] = "set"
     /\ StepTo(th, 9)
-    /\ UNCHANGED <<mon, variant, scn, hs, ready, timers, hl, fut, lp, q, fwake, go, idled, woken, own>>
+    /\ UNCHANGED <<mon, variant, scn, hs, ready, timers, hl, fut, lp, q, fwake, go, idled, woken, own, busy>>
+
+\* fault "impatient": future.result(timeout=1) with the timeout swallowed - dispose() returns although the loop
+\* has not processed the cancellation (the deadline was noted in tmp when the wait began)
+DispGiveUp(th) ==
+    /\ variant = "impatient"
+    /\ MayRun(th) /\ ex[th].op = "disp" /\ ex[th].step = 11 /\ now >= ex[th].tmp
+    /\ StepTo(th, 9)
+    /\ UNCHANGED <<mon, variant, scn, hs, ready, timers, hl, fut, lp, q, fwake, go, idled, woken, own, busy>>
 
 DispRet(th) ==
     /\ MayRun(th) /\ ex[th].op = "disp" /\ ex[th].step = 9
     /\ MDispRet(ex[th].i, now) /\ SetEx(th, NoOp)
-    /\ UNCHANGED <<variant, scn, hs, ready, timers, hl, fut, lp, q, fwake, go, idled, woken, own>>
+    /\ UNCHANGED <<variant, scn, hs, ready, timers, hl, fut, lp, q, fwake, go, idled, woken, own, busy>>
 
 \* cancel_handle on the loop: future.set_result(0)
 CancelDone(th) ==
     /\ MayRun(th) /\ ex[th].op = "cxl" /\ ex[th].step = 9
     /\ fut' = [fut EXCEPT ![ex[th].i] = "set"] /\ SetEx(th, NoOp)
-    /\ UNCHANGED <<mon, variant, scn, hs, ready, timers, hl, lp, q, fwake, go, idled, woken, own>>
+    /\ UNCHANGED <<mon, variant, scn, hs, ready, timers, hl, lp, q, fwake, go, idled, woken, own, busy>>
 
 \* the scenario's way of disposing on the loop thread: post a callback that calls dispose()
 \* (a foreign thread with call_soon_threadsafe - append, then Wake; the loop thread with call_soon / call_later)
@@ -363,14 +375,14 @@ PostDispose(th) ==
        THEN hs' = Append(hs, H("dl", i, now + w)) /\ timers' = timers \cup {NextH} /\ UNCHANGED ready
        ELSE hs' = Append(hs, H("dl", i, 0)) /\ ready' = Append(ready, NextH) /\ UNCHANGED timers
     /\ IF th = LT THEN SetEx(th, NoOp) ELSE StepTo(th, 1)
-    /\ UNCHANGED <<mon, variant, scn, hl, fut, lp, q, fwake, go, idled, woken, own>>
+    /\ UNCHANGED <<mon, variant, scn, hl, fut, lp, q, fwake, go, idled, woken, own, busy>>
 
 (* ---- callbacks that exist only on the loop ------------------------------------------------------ *)
 \* interval(): invoke_action
 RunInterval ==
     /\ lp.pc = "cb" /\ ex[LT].op = "iv"
     /\ MStart(ex[LT].i, LT, now) /\ SetEx(LT, NoOp)
-    /\ UNCHANGED <<variant, scn, hs, ready, timers, hl, fut, lp, q, fwake, go, idled, woken, own>>
+    /\ UNCHANGED <<variant, scn, hs, ready, timers, hl, fut, lp, q, fwake, go, idled, woken, own, busy>>
 
 \* stage2(), first half: self._loop.call_later(seconds, interval)
 Stage2Timer ==
@@ -378,13 +390,13 @@ Stage2Timer ==
     /\ IF variant = "lose" THEN UNCHANGED <<hs, timers>> /\ SetEx(LT, NoOp)
        ELSE /\ hs' = Append(hs, H("iv", ex[LT].i, now + scn[ex[LT].i].d)) /\ timers' = timers \cup {NextH}
             /\ ex' = [ex EXCEPT ![LT].step = 1, ![LT].tmp = NextH]
-    /\ UNCHANGED <<mon, variant, scn, ready, hl, fut, lp, q, fwake, go, idled, woken, own>>
+    /\ UNCHANGED <<mon, variant, scn, ready, hl, fut, lp, q, fwake, go, idled, woken, own, busy>>
 
 \* stage2(), second half: handle.append(...)
 Stage2Assign ==
     /\ lp.pc = "cb" /\ ex[LT].op = "s2" /\ ex[LT].step = 1
     /\ hl' = [hl EXCEPT ![ex[LT].i] = Append(@, ex[LT].tmp)] /\ SetEx(LT, NoOp)
-    /\ UNCHANGED <<mon, variant, scn, hs, ready, timers, fut, lp, q, fwake, go, idled, woken, own>>
+    /\ UNCHANGED <<mon, variant, scn, hs, ready, timers, fut, lp, q, fwake, go, idled, woken, own, busy>>
 
 (* ---- the loop thread: run_forever / _run_once ----------------------------------------------------- *)
 DueBound == IF variant = "early" THEN now + 1 ELSE now
@@ -400,14 +412,14 @@ LoopStart ==
     /\ lp.pc = "off" /\ go
     /\ lp' = [lp EXCEPT !.pc = "top"]
     /\ MLoopStart(LT, now)
-    /\ UNCHANGED <<variant, scn, hs, ready, timers, hl, fut, q, ex, fwake, go, idled, woken, own>>
+    /\ UNCHANGED <<variant, scn, hs, ready, timers, hl, fut, q, ex, fwake, go, idled, woken, own, busy>>
 
 \* top of _run_once with nothing ready and no timer due: the loop blocks in select()
 Poll ==
     /\ lp.pc = "top" /\ ready = <<>> /\ Due \ HeadCancelled = {}
     /\ lp' = [lp EXCEPT !.pc = "sel"]
     /\ timers' = timers \ HeadCancelled
-    /\ UNCHANGED <<mon, variant, scn, hs, ready, hl, fut, q, ex, fwake, go, idled, woken, own>>
+    /\ UNCHANGED <<mon, variant, scn, hs, ready, hl, fut, q, ex, fwake, go, idled, woken, own, busy>>
 
 \* one iteration: select() returns at once (something is ready), or it was woken through the self-pipe, or a timer
 \* is due; the self-pipe is drained; due timers join the ready queue; ntodo = len(ready)
@@ -419,7 +431,7 @@ RunOnce ==
        /\ ready' = ready \o Ordered(due) /\ timers' = (timers \ drop) \ due
        /\ lp' = [lp EXCEPT !.pc = "iter", !.todo = Len(ready) + Cardinality(due)]
     /\ idled' = 0 /\ woken' = FALSE
-    /\ UNCHANGED <<mon, variant, scn, hs, hl, fut, q, ex, fwake, go, own>>
+    /\ UNCHANGED <<mon, variant, scn, hs, hl, fut, q, ex, fwake, go, own, busy>>
 
 \* handle = ready.popleft(); if handle._cancelled: continue
 Pop ==
@@ -427,12 +439,12 @@ Pop ==
     /\ ready' = Tail(ready)
     /\ lp' = IF hs[Head(ready)].c THEN [lp EXCEPT !.todo = @ - 1]
              ELSE [pc |-> "enter", h |-> Head(ready), todo |-> lp.todo - 1]
-    /\ UNCHANGED <<mon, variant, scn, hs, timers, hl, fut, q, ex, fwake, go, idled, woken, own>>
+    /\ UNCHANGED <<mon, variant, scn, hs, timers, hl, fut, q, ex, fwake, go, idled, woken, own, busy>>
 
 IterEnd ==
     /\ lp.pc = "iter" /\ lp.todo = 0
     /\ lp' = [lp EXCEPT !.pc = "top"]
-    /\ UNCHANGED <<mon, variant, scn, hs, ready, timers, hl, fut, q, ex, fwake, go, idled, woken, own>>
+    /\ UNCHANGED <<mon, variant, scn, hs, ready, timers, hl, fut, q, ex, fwake, go, idled, woken, own, busy>>
 
 \* handle._run(): the callback is read now (a cancel() in between has cleared it: nothing runs)
 Enter ==
@@ -440,17 +452,17 @@ Enter ==
     /\ LET h == hs[lp.h] IN
        IF h.c THEN lp' = [lp EXCEPT !.pc = "iter"] /\ UNCHANGED <<q, ex>>
        ELSE /\ lp' = [lp EXCEPT !.pc = "cb"]
-            /\ CASE h.k = "drv" -> q' = [q EXCEPT ![LT] = LScript(scn)] /\ UNCHANGED ex
+            /\ CASE h.k = "drv" -> q' = [q EXCEPT ![LT] = LScript(scn, busy)] /\ UNCHANGED ex
                  [] h.k = "iv"  -> SetEx(LT, [op |-> "iv", i |-> h.i, step |-> 0, tmp |-> 0]) /\ UNCHANGED q
                  [] h.k = "s2"  -> SetEx(LT, [op |-> "s2", i |-> h.i, step |-> 0, tmp |-> 0]) /\ UNCHANGED q
                  [] h.k = "cx"  -> SetEx(LT, [op |-> "cxl", i |-> h.i, step |-> 1, tmp |-> 0]) /\ UNCHANGED q
                  [] h.k = "dl"  -> SetEx(LT, [op |-> "disp", i |-> h.i, step |-> 0, tmp |-> 0]) /\ UNCHANGED q
-    /\ UNCHANGED <<mon, variant, scn, hs, ready, timers, hl, fut, fwake, go, idled, woken, own>>
+    /\ UNCHANGED <<mon, variant, scn, hs, ready, timers, hl, fut, fwake, go, idled, woken, own, busy>>
 
 CbEnd ==
-    /\ lp.pc = "cb" /\ ~Busy(LT) /\ q[LT] = <<>>
+    /\ lp.pc = "cb" /\ ~Busy(LT) /\ q[LT] = <<>> /\ now >= fwake[LT]
     /\ lp' = [lp EXCEPT !.pc = "iter"]
-    /\ UNCHANGED <<mon, variant, scn, hs, ready, timers, hl, fut, q, ex, fwake, go, idled, woken, own>>
+    /\ UNCHANGED <<mon, variant, scn, hs, ready, timers, hl, fut, q, ex, fwake, go, idled, woken, own, busy>>
 
 FDone == \A f \in Foreign : q[f] = <<>> /\ ~Busy(f)
 Asleep == lp.pc = "sel" /\ ~woken /\ Due = {}
@@ -459,34 +471,38 @@ Asleep == lp.pc = "sel" /\ ~woken /\ Due = {}
 LoopIdle ==
     /\ Asleep /\ timers = {} /\ idled = 0 /\ ready = <<>>
     /\ MIdle(LT, now) /\ idled' = 1
-    /\ UNCHANGED <<variant, scn, hs, ready, timers, hl, fut, lp, q, ex, fwake, go, woken, own>>
+    /\ UNCHANGED <<variant, scn, hs, ready, timers, hl, fut, lp, q, ex, fwake, go, woken, own, busy>>
 
 \* handles are in the ready queue but nobody woke the selector, and nobody is left who could: for the property this
 \* is an idle loop as well (reported once, when every other thread has finished)
 LoopAsleepWithWork ==
     /\ Asleep /\ timers = {} /\ idled \in {0, 1} /\ FDone /\ ready # <<>>
     /\ MIdle(LT, now) /\ idled' = 2
-    /\ UNCHANGED <<variant, scn, hs, ready, timers, hl, fut, lp, q, ex, fwake, go, woken, own>>
+    /\ UNCHANGED <<variant, scn, hs, ready, timers, hl, fut, lp, q, ex, fwake, go, woken, own, busy>>
 
 \* the harness stops the loop at quiescence (asleep, no timer, every other thread finished)
 LoopStop ==
     /\ Asleep /\ timers = {} /\ FDone /\ (IF ready = <<>> THEN idled = 1 ELSE idled = 2)
     /\ lp' = [lp EXCEPT !.pc = "end"]
     /\ MLoopStop(LT, now)
-    /\ UNCHANGED <<variant, scn, hs, ready, timers, hl, fut, q, ex, fwake, go, idled, woken, own>>
+    /\ UNCHANGED <<variant, scn, hs, ready, timers, hl, fut, q, ex, fwake, go, idled, woken, own, busy>>
 
-\* time passes only while the loop thread is not inside an iteration, and only if somebody waits for it
+\* Time passes only while nobody can run on it: the loop thread is outside an iteration or asleep inside a callback.
+\* Discrete-event rule (that of the controlled clock): the clock JUMPS to the earliest instant somebody waits for.
+Waits == {hs[h].when : h \in timers} \cup {fwake[t] : t \in Threads}
+         \cup {ex[t].tmp : t \in {u \in Threads : variant = "impatient" /\ ex[u].op = "disp" /\ ex[u].step = 11}}
+Later == {w \in Waits : w > now}
 Tick ==
-    /\ lp.pc \in {"off", "end", "sel"}
-    /\ ((\E h \in timers : hs[h].when > now) \/ \E f \in Foreign : fwake[f] > now)
-    /\ now' = now + 1
+    /\ (lp.pc \in {"off", "end", "sel"} \/ (lp.pc = "cb" /\ now < fwake[LT]))
+    /\ Later # {}
+    /\ now' = Min(Later)
     /\ UNCHANGED <<loopTh, gen, it, lost, mech>>
 
 AllDone == lp.pc = "end" /\ FDone
 Finished == AllDone /\ UNCHANGED vars
 
 ThreadStep(th) == \/ NextOp(th) \/ SchedCall(th) \/ SchedInline(th) \/ SchedEnqueue(th) \/ SchedAssign(th) \/ SchedRet(th)
-                  \/ DispCall(th) \/ CancelPop(th) \/ CancelSet(th) \/ DispMarshal(th) \/ DispAwait(th) \/ DispRet(th)
+                  \/ DispCall(th) \/ CancelPop(th) \/ CancelSet(th) \/ DispMarshal(th) \/ DispAwait(th) \/ DispGiveUp(th) \/ DispRet(th)
                   \/ CancelDone(th) \/ PostDispose(th) \/ Wake(th)
 
 Next == \/ \E th \in Threads : ThreadStep(th)
@@ -511,5 +527,5 @@ EndOK == AllDone => \A i \in Items : ((it[i].ss = "ret" /\ it[i].ds = "none") =>
 
 (* ---- export of the scenario family (Binding A half: the scenarios the replayer performs) ----------- *)
 NoNext == FALSE /\ UNCHANGED vars
-ExportScn == PrintT(ToJson([scn |-> scn, f |-> [t \in Foreign |-> Script(scn, t)], l |-> LScript(scn), own |-> own]))
+ExportScn == PrintT(ToJson([scn |-> scn, f |-> [t \in Foreign |-> Script(scn, t)], l |-> LScript(scn, busy), own |-> own, busy |-> busy]))
 ================================================================================
